@@ -263,8 +263,19 @@ func awkwardCatalogue() []named {
 		// whole structures whose leaves are awkward for a comparison with the "AND-awkward-leaves" / "cond-awkward-leaf" receivers:
 		// same shape, but a DIFFERENT struct type (embedded field exported on one side only), nil pointers inside slices, []any of mixed things
 		{"stack-awkward-leaves", awkwardLeafStack(true)},
+		{"stack-awkward-maps", awkwardMapStack(true)},
 		{"cond-awkward-leaf", stackage.Cond("k", stackage.Eq, eqStructX{A: 1, C: "c"})},
 	}
+}
+
+// awkwardMapStack: maps of the same type and length whose KEY SETS differ from the other side's, and a NaN-keyed map
+// (a key that can never be looked up again, not even in an identical copy)
+func awkwardMapStack(other bool) stackage.Stack {
+	k2 := "b"
+	if other {
+		k2 = "c"
+	}
+	return stackage.And().Push(map[float64]int{math.NaN(): 1}, map[string]int{"a": 1, k2: 2}, map[string]any{"x": nil, k2: 1})
 }
 
 func awkwardLeafStack(other bool) stackage.Stack {
@@ -433,6 +444,7 @@ func liveStackMakers() []recvMaker {
 			return s.Push("m", "n")
 		}},
 		recvMaker{"AND-awkward-leaves", "Stack", func() any { return awkwardLeafStack(false) }},
+		recvMaker{"AND-awkward-maps", "Stack", func() any { return awkwardMapStack(false) }},
 		recvMaker{"AND-shared-encap", "Stack", func() any {
 			// the encapsulation schemes of parent and child are slices of ONE backing array, the parent's with spare capacity:
 			// a query that appends to what it was given would write into the child's configuration
